@@ -490,6 +490,59 @@ Definition top_values_res (efs : list str) (esf : str) (schema : json) : res (li
 Definition top_values (efs : list str) (esf : str) (schema : json) : xres :=
   to_xres (top_values_res efs esf schema).
 
+(* 5b. the WHOLE node of extract_top_level (examples.py:92-146): a parameter
+   object / media type object / OpenAPI 2.0 body parameter object.
+   definitions = [node] + expanded subschemas of node[schema] (node alone when
+   it has no schema key); for every definition every keyword of the SORTED set
+   (example, x-example) that is present gives one value (singles); then the
+   named examples of node[esf] (extract_inner_examples against the unresolved
+   definition); then the items of esf of every expanded subschema.
+   The selection of single values is a parameter so that the rule of the code
+   (every keyword present) and the sentinel (first keyword present only) are the
+   same function otherwise. *)
+Definition s_schema : str := [115;99;104;101;109;97]%N.   (* schema *)
+
+Definition inner_res (examples unresolved : json) : res (list json) :=
+  match examples with
+  | JObj kvs => fold_left (inner_step unresolved) kvs (Ok [])
+  | _ => Err Raised
+  end.
+
+Definition node_defs_res (node : json) : res (list json) :=
+  match obj_get s_schema node with
+  | Some sch => bind (expand_res sch) (fun subs => Ok (node :: subs))
+  | None => Ok [node]
+  end.
+
+Definition node_values_gen (pick : list json -> list json) (esf : str) (node unresolved : json) : res (list json) :=
+  bind (node_defs_res node) (fun defs =>
+  bind (match obj_get esf node with Some x => inner_res x unresolved | None => Ok [] end) (fun inner =>
+  bind (match obj_get s_schema node with
+        | Some sch => bind (expand_res sch) (fun subs => fold_left (multi_step esf) subs (Ok []))
+        | None => Ok []
+        end) (fun multi =>
+  Ok (pick defs ++ inner ++ multi)))).
+
+(* the code: every keyword of efs present in a definition *)
+Definition node_values_res (efs : list str) (esf : str) (node unresolved : json) : res (list json) :=
+  node_values_gen (singles efs) esf node unresolved.
+Definition node_values (efs : list str) (esf : str) (node unresolved : json) : xres :=
+  to_xres (node_values_res efs esf node unresolved).
+
+(* SENTINEL, not the code: only the FIRST keyword of the preference list that is
+   present in a definition gives a value (x-example has precedence over example) *)
+Fixpoint first_keyword (prefs : list str) (s : json) : list json :=
+  match prefs with
+  | [] => []
+  | ef :: rest => match obj_get ef s with Some v => [v] | None => first_keyword rest s end
+  end.
+Definition singles_first_only (prefs : list str) (subs : list json) : list json :=
+  flat_map (first_keyword prefs) subs.
+Definition node_values_first_only_res (prefs : list str) (esf : str) (node unresolved : json) : res (list json) :=
+  node_values_gen (singles_first_only prefs) esf node unresolved.
+Definition node_values_first_only (prefs : list str) (esf : str) (node unresolved : json) : xres :=
+  to_xres (node_values_first_only_res prefs esf node unresolved).
+
 (* ------------------------------------------------------------------ *)
 (* 6. _find_parameter_examples_definition (examples.py:163-179): the    *)
 (*    raw parameter objects of the operation followed by those of the   *)
